@@ -226,15 +226,19 @@ func genEncRoundTrip(ctx *Ctx, emit func(Case)) {
 		lens = append(lens, smallLen(r))
 	}
 	if ctx.Quick {
-		lens = append(lens, mib, mib+1)
+		lens = append(lens, mib, mib, mib+1, mib+1)
 	} else {
 		for _, v := range []int{1, 2} {
 			_ = v
 			lens = append(lens, boundaryLens...)
+			lens = append(lens, boundaryLens...)
 		}
 	}
-	for _, n := range lens {
+	for li, n := range lens {
 		c := randEncConfig(r, n)
+		if n >= mib-1 { // chunk-boundary lengths: both versions, alternating
+			c.v = saltpack.Version{Major: 1 + li%2, Minor: 0}
+		}
 		if n >= mib-1 && len(c.recips) > 3 {
 			c.recips, c.hidden = c.recips[:2], c.hidden[:2]
 			c.src = randScript(r, 2, c.ephRand, -1, 0)
